@@ -39,7 +39,12 @@ struct Buffer {
 }
 
 impl Buffer {
-    fn enqueue(&mut self, msg: Message, con: Connection) {
+    fn enqueue(&mut self, msg: Message, mut con: Connection) {
+        // A buffered connection must not own a handle to its channel, since this is
+        // the channel that owns this buffer: the channel would keep itself alive.
+        // The handle is restored once the message is transmitted (see `send_message`).
+        con.channel = None;
+
         self.acc_bytes += msg.length();
         self.packets.push_back((msg, con));
     }
@@ -232,7 +237,12 @@ impl Channel {
 
             sink.add(
                 NetEvents::MessageExitingConnection(MessageExitingConnection {
-                    con: via.clone(),
+                    // `via` is the connection this channel is attached to,
+                    // buffered connections come without a handle.
+                    con: Connection {
+                        channel: Some(self.clone()),
+                        ..via
+                    },
                     msg,
                 }),
                 next_event_time,
